@@ -51,6 +51,9 @@ type Channel struct {
 	curPacketNr int
 	// window is the amount of buffers transmitted between ACKs
 	window int
+	// txOpen is true while packets of the current message have been
+	// sent but none of them carried the end-of-message status yet.
+	txOpen bool
 
 	// queues store unconsumed Packets
 	queueRx, queueTx *PacketQueue
@@ -134,6 +137,7 @@ func (tdsChan *Channel) Reset() {
 	tdsChan.CurrentHeaderType = TDS_BUF_NORMAL
 	tdsChan.queueTx.Reset()
 	tdsChan.lastPkgTx = nil
+	tdsChan.txOpen = false
 }
 
 // Close communicates the termination of the channel with the TDS
@@ -538,6 +542,19 @@ func (tdsChan *Channel) sendPackets(ctx context.Context, onlyFull bool) error {
 		}
 	}
 
+	if !onlyFull && tdsChan.txOpen {
+		// The message filled its last packet completely, so all packets
+		// were sent without the end-of-message status. Terminate the
+		// message with a header-only packet.
+		eom := NewPacket(PacketHeaderSize)
+		eom.Header.Length = PacketHeaderSize
+		eom.Data = nil
+
+		if err := tdsChan.sendPacket(eom); err != nil {
+			return fmt.Errorf("error sending packet %s: %w", eom, err)
+		}
+	}
+
 	return nil
 }
 
@@ -566,6 +583,8 @@ func (tdsChan *Channel) sendPacket(packet *Packet) error {
 		return fmt.Errorf("expected to write %d bytes for packet, wrote %d instead",
 			int(packet.Header.Length)+PacketHeaderSize, n)
 	}
+
+	tdsChan.txOpen = packet.Header.Status&TDS_BUFSTAT_EOM != TDS_BUFSTAT_EOM
 
 	return nil
 }
